@@ -3,6 +3,8 @@
 package set
 
 import (
+	"math/bits"
+
 	"google.golang.org/protobuf/internal/zzverif/nd"
 )
 
@@ -11,7 +13,7 @@ import (
 // exactly n, Has is membership, Len counts members. Covers the 63/64 boundary between the
 // bitmap and the map.
 //
-//verif:props=C26 bounds=arbitrary-64-bit-bitmap;<=2-arbitrary-large-members;all-uint64-n,m solver=cvc5 timeout=30000 deadline=900
+//verif:props=C26 bounds=arbitrary-64-bit-bitmap;<=2-arbitrary-large-members;all-uint64-n,m
 func H_C26_set() {
 	var s Ints
 	s.lo = int64s(nd.Uint64())
@@ -29,6 +31,8 @@ func H_C26_set() {
 	before := s.Has(m)
 	lenBefore := s.Len()
 	hadN := s.Has(n)
+	loBefore := uint64(s.lo)
+	nd.Assert(lenBefore == bits.OnesCount64(loBefore)+k, "Len counts bitmap members plus large members")
 	// reference membership of m before the step
 	ref := false
 	if m < 64 {
@@ -45,7 +49,11 @@ func H_C26_set() {
 		nd.Reach("set")
 		nd.Assert(s.Has(n), "Set(n) makes n a member")
 		nd.Assert(s.Has(m) == (before || m == n), "Set(n) adds exactly n")
-		if hadN {
+		if n < 64 {
+			// (Len of the bitmap part is its popcount, asserted above; the word itself is checked here:
+			// popcount differences are out of reach of the solvers within the time limit)
+			nd.Assert(uint64(s.lo) == loBefore|1<<n, "Set changes exactly bit n of the bitmap")
+		} else if hadN {
 			nd.Assert(s.Len() == lenBefore, "Set of a member keeps Len")
 		} else {
 			nd.Assert(s.Len() == lenBefore+1, "Set of a new element increments Len")
@@ -55,7 +63,9 @@ func H_C26_set() {
 		nd.Reach("clear")
 		nd.Assert(!s.Has(n), "Clear(n) removes n")
 		nd.Assert(s.Has(m) == (before && m != n), "Clear(n) removes exactly n")
-		if hadN {
+		if n < 64 {
+			nd.Assert(uint64(s.lo) == loBefore&^(1<<n), "Clear changes exactly bit n of the bitmap")
+		} else if hadN {
 			nd.Assert(s.Len() == lenBefore-1, "Clear of a member decrements Len")
 		} else {
 			nd.Assert(s.Len() == lenBefore, "Clear of a non-member keeps Len")
